@@ -200,6 +200,20 @@ func (s *Sym) MakeFn(name string, args ...*RF) *RF {
 			if at := args[0].SingleAtom(); at != nil && strings.HasPrefix(at.Name, "makeslice:") && len(at.Args) == 1 {
 				return at.Args[0]
 			}
+			// Sample.Copy and Sample.Sort keep the number of values and of weights
+			// (Copy: same-length copies — decided under C09/C10; Sort: a permutation in place)
+			if at := args[0].SingleAtom(); at != nil && (at.Name == "fld:Sample.Xs" || at.Name == "fld:Sample.Weights") && len(at.Args) == 1 {
+				if da := at.Args[0].SingleAtom(); da != nil && da.Name == "deref" && len(da.Args) == 1 {
+					if ca := da.Args[0].SingleAtom(); ca != nil && len(ca.Args) == 1 {
+						switch ca.Name {
+						case "call:Sort": // (*Sample).Sort returns its receiver
+							return s.MakeFn("len", s.MakeFn(at.Name, s.MakeFn("deref", ca.Args[0])))
+						case "call:Copy": // (Sample).Copy: value receiver
+							return s.MakeFn("len", s.MakeFn(at.Name, ca.Args[0]))
+						}
+					}
+				}
+			}
 			// len([]byte(s)) = len(s): the conversion copies the bytes of the string
 			if at := args[0].SingleAtom(); at != nil && at.Name == "conv:[]byte" && len(at.Args) == 1 {
 				return s.MakeFn("len", at.Args[0])
@@ -251,6 +265,34 @@ func (s *Sym) MakeFn(name string, args ...*RF) *RF {
 	case "land", "lor":
 		return s.nary(name, args)
 	case "cmp==", "cmp!=", "cmp<", "cmp<=":
+		// parity written with a mask: x&1 is 0 or 1 as x%2 is 0 or ±1
+		if len(args) == 2 && (name == "cmp==" || name == "cmp!=") {
+			for k := 0; k < 2; k++ {
+				c, isC := args[k].IsConst()
+				ma := args[1-k].SingleAtom()
+				if !isC || !c.IsInt() || ma == nil || ma.Name != "and" || len(ma.Args) != 2 || !args[1-k].Equal(s.atomRF(ma.ID)) {
+					continue
+				}
+				var x *RF
+				for j := 0; j < 2; j++ {
+					if o, ok := ma.Args[j].IsConst(); ok && o.Cmp(big.NewRat(1, 1)) == 0 {
+						x = ma.Args[1-j]
+					}
+				}
+				if x == nil || !s.Integral(x) {
+					continue
+				}
+				m := s.MakeFn("imod", x, s.Int(2))
+				zero := c.Sign() == 0
+				one := c.Cmp(big.NewRat(1, 1)) == 0
+				switch {
+				case zero && name == "cmp==", one && name == "cmp!=":
+					return s.MakeFn("cmp==", s.Int(0), m)
+				case zero && name == "cmp!=", one && name == "cmp==":
+					return s.MakeFn("cmp!=", s.Int(0), m)
+				}
+			}
+		}
 		// a comparison whose two sides differ by a constant is decided (reals, A4)
 		if len(args) == 2 {
 			if c, ok := args[0].Sub(args[1]).IsConst(); ok {
